@@ -1444,8 +1444,12 @@ fn hostile_value(t: &mut Tape, expected_len: usize) -> String {
     // characters that need 2, 3 and 4 bytes in UTF-8, as raw text or as
     // decimal / hexadecimal character references
     let wide = ['\u{e9}', '\u{20ac}', '\u{1F600}'];
-    let target = match t.choose(6) {
-        0 => expected_len,
+    // half of the values are plain ASCII on the wire: every multi-byte
+    // character comes as a character reference (a check made on the raw
+    // octets then sees nothing, the unescaped value has them all)
+    let refs_only = t.chance(1, 2);
+    let target = match t.choose(7) {
+        0 | 6 => expected_len,
         1 => expected_len + 1,
         2 => expected_len.saturating_sub(1),
         3 => 0,
@@ -1477,7 +1481,7 @@ fn hostile_value(t: &mut Tape, expected_len: usize) -> String {
                 if n == 1 {
                     out.push(ch);
                 } else {
-                    match t.choose(3) {
+                    match if refs_only { 1 + t.choose(2) } else { t.choose(3) } {
                         0 => out.push(ch),
                         1 => out.push_str(&format!("&#{};", ch as u32)),
                         _ => out.push_str(&format!("&#x{:X};", ch as u32)),
